@@ -52,6 +52,9 @@ def gen(rng, tier):
             cases.append("parse_data decrypt %s %s %s %d" % (fh, nwk, app, other))
             cases.append("parse_data mic %s %s none %d" % (fh, nwk, other))
             cases.append("parse_data check %s %s %s %d" % (fh, nwk, app, fcnt ^ 0x10000))
+            # the checked decode authenticates against the WHOLE counter it is given: same upper half, another low half
+            cases.append("parse_data check %s %s %s %d" % (fh, nwk, app, other))
+            cases.append("parse_data check %s %s %s %d" % (fh, nwk, app, (fcnt + rng.choice([1, 0xFFFFFFFF, 2, 255, 256])) & 0xFFFFFFFF))
         if i % 5 == 0:
             cases.append("parse_data parse %s none none 0" % fh)
             cases.append("parse_phy %s" % fh)
